@@ -960,7 +960,7 @@ fn fam_waker(rng: &mut Rng) -> Prog {
         p.tick();
     }
     let id = p.with_wakers().first().copied().unwrap_or(0);
-    match rng.below(7) {
+    match rng.below(8) {
         0 => {
             // wake / tick until (plausibly) complete, wake after completion, then drop the clones
             for _ in 0..rng.range(1, 5) {
@@ -1028,6 +1028,25 @@ fn fam_waker(rng: &mut Rng) -> Prog {
             }
             p.wake(id);
             p.wdrop(id);
+        }
+        5 => {
+            // several clones of the same task alive at once, dropped one by one between wakes and ticks
+            for _ in 0..rng.range(1, 3) {
+                p.wake(id);
+                p.tick();
+            }
+            while p.tasks[id].wakers > 0 {
+                p.wdrop(id);
+                match rng.below(4) {
+                    0 => p.wake(id),
+                    1 => p.tick(),
+                    2 => {
+                        p.wake(id);
+                        p.tick();
+                    }
+                    _ => {}
+                }
+            }
         }
         _ => {}
     }
@@ -1098,6 +1117,7 @@ fn fam_join(rng: &mut Rng) -> Prog {
         }
         5 => p.hend("hdetach", id),
         6 => p.hend("hcancel", id),
+        7 if rng.chance(1, 2) => p.hend("hcancel", id),
         7 => {
             p.xdrop();
             let w = p.pick_waker(id, rng);
@@ -1349,11 +1369,13 @@ fn generate(tier: &str, rng: &mut Rng) -> Vec<Case> {
     let mut cases = vec![];
     // 1. exhaustive slices
     if thorough {
-        enumerate(7, 1, &SCRIPTS_A, "xa", &mut cases);
-        enumerate(7, 61, &SCRIPTS_A, "xb", &mut cases);
-        enumerate(6, 1, &SCRIPTS_B, "xc", &mut cases);
-        enumerate(6, 2, &SCRIPTS_B, "xd", &mut cases);
-        enumerate(6, 3, &SCRIPTS_B, "xe", &mut cases);
+        enumerate(7, 61, &SCRIPTS_A, "xa", &mut cases);
+        enumerate(6, 1, &SCRIPTS_A, "xb", &mut cases);
+        enumerate(6, 2, &SCRIPTS_A, "xc", &mut cases);
+        enumerate(6, 61, &SCRIPTS_B, "xd", &mut cases);
+        enumerate(5, 1, &SCRIPTS_B, "xe", &mut cases);
+        enumerate(5, 2, &SCRIPTS_B, "xf", &mut cases);
+        enumerate(5, 3, &SCRIPTS_B, "xg", &mut cases);
     } else {
         enumerate(4, 1, &SCRIPTS_A, "xa", &mut cases);
         enumerate(3, 61, &SCRIPTS_A, "xb", &mut cases);
